@@ -117,6 +117,11 @@ fn chunk_free(p: &[u8]) -> bool {
 }
 
 pub const FILE: &str = "m.mv2";
+/// The one memory id and signature for which an authentic control-plane ticket is available
+/// offline (pinned in the crate's own src/signature.rs tests): issuer memvid-dashboard, seq 9,
+/// 86400 s, 10 GiB.
+pub const PINNED_MEMORY: &str = "69601cef-bea5-7ba3-fec3-9b5c00000000";
+pub const PINNED_SIG: &str = "OUVSB4rKCSPDlP+rrZN1AlkI6k2zDdNaZb5HKPZDTjqhnCHBYKXg4lyEE4aevDN7rLpdFjINiCCaBEBaH35vDw==";
 
 fn errs(e: &MemvidError) -> String {
     let s = format!("{e}");
@@ -431,6 +436,70 @@ impl World {
                         (true, false, None)
                     }
                     Err(e) => (false, false, Some(errs(&e))),
+                }
+            }
+            Op::BindPinned => {
+                if self.mem.is_none() || self.ro {
+                    return (false, true, None);
+                }
+                let b = memvid_core::types::MemoryBinding { memory_id: uuid::Uuid::parse_str(PINNED_MEMORY).unwrap(), memory_name: "pinned".into(), bound_at: chrono::DateTime::<chrono::Utc>::from_timestamp(1_700_000_000, 0).unwrap(), api_url: "https://example.invalid".into() };
+                match self.mem.as_mut().unwrap().set_memory_binding_only(b) {
+                    Ok(()) => {
+                        self.bound = Some(u64::MAX);
+                        (true, false, None)
+                    }
+                    Err(e) => (false, false, Some(errs(&e))),
+                }
+            }
+            Op::PinnedTicket { tamper } => {
+                if self.mem.is_none() || self.ro {
+                    return (false, true, None);
+                }
+                use base64::Engine;
+                let sig = base64::engine::general_purpose::STANDARD.decode(PINNED_SIG).unwrap();
+                let mut t = memvid_core::types::SignedTicket::new("memvid-dashboard", 9, 86_400, Some(10_737_418_240), uuid::Uuid::parse_str(PINNED_MEMORY).unwrap(), sig);
+                match tamper {
+                    1 => t.seq_no = 10,
+                    2 => t.capacity_bytes = Some(10_737_418_241),
+                    3 => t.memory_id = uuid::Uuid::from_u128(7u128 | (1u128 << 100)),
+                    4 => t.issuer = "memvid.com".into(),
+                    5 => t.expires_in_secs = 86_401,
+                    _ => {}
+                }
+                let authentic = *tamper == 0 || *tamper > 5;
+                let names_bound = match (self.bound, tamper) {
+                    (Some(u64::MAX), 3) => false,
+                    (Some(u64::MAX), _) => true,
+                    (Some(7), 3) => true,
+                    _ => false,
+                };
+                let fresh = t.seq_no > self.model.ticket_seq;
+                let before = self.mem.as_ref().unwrap().current_ticket();
+                let (seq, cap) = (t.seq_no, t.capacity_bytes);
+                match self.mem.as_mut().unwrap().apply_signed_ticket(t) {
+                    Ok(()) => {
+                        if !authentic {
+                            self.viol(&["C25"], "tampered-signed-ticket-rejected", format!("the pinned signed ticket with one field changed (tamper {tamper}) was accepted"), i);
+                        } else if !names_bound {
+                            self.viol(&["C25"], "signed-ticket-names-bound-memory", format!("the authentic ticket for memory {PINNED_MEMORY} was accepted by a memory bound to {:?}", self.bound), i);
+                        } else if !fresh {
+                            self.viol(&["C25"], "ticket-seq-monotonic", format!("signed ticket seq {seq} accepted after {}", self.model.ticket_seq), i);
+                        } else {
+                            self.probes_extra("authentic_signed_ticket_accepted", 1);
+                        }
+                        self.model.ticket_seq = seq;
+                        self.model.capacity = cap;
+                        self.probes_extra("tickets_accepted", 1);
+                        (true, false, None)
+                    }
+                    Err(e) => {
+                        let after = self.mem.as_ref().unwrap().current_ticket();
+                        if after.seq_no != before.seq_no || after.capacity_bytes != before.capacity_bytes || after.issuer != before.issuer {
+                            self.viol(&["C25"], "rejected-ticket-changes-nothing", format!("rejected signed ticket changed the ticket state: {:?} -> {:?}", before.seq_no, after.seq_no), i);
+                        }
+                        self.probes_extra(if authentic && names_bound && fresh { "authentic_signed_ticket_rejected" } else if authentic && !names_bound { "authentic_ticket_for_other_memory_rejected" } else { "forged_tickets_rejected" }, 1);
+                        (false, false, Some(errs(&e)))
+                    }
                 }
             }
             Op::SignedTicket { issuer, seq, capacity, memory, sig_seed } => {
@@ -1062,7 +1131,7 @@ impl World {
         }
         // ---- C25 / C24: a rejected ticket or a refused put changes nothing
         if !ok {
-            let rejected_ticket = matches!(op, Op::Ticket { .. } | Op::SignedTicket { .. });
+            let rejected_ticket = matches!(op, Op::Ticket { .. } | Op::SignedTicket { .. } | Op::PinnedTicket { .. });
             let capacity = err.is_some_and(|e| e.contains("apacity"));
             if rejected_ticket || (capacity && matches!(op, Op::Put(_) | Op::Update { .. } | Op::UpdateUri { .. })) {
                 let wr = self.writes_since(log_b);
